@@ -323,6 +323,14 @@ func MerklizeOpts() []merklize.MerklizeOption {
 
 // NewCredential builds a KYCAgeCredential (kyc-v3 context, merklized) issued by issuerDID.
 func NewCredential(rng *rand.Rand, issuerDID, subjectDID string, revNonce uint64) map[string]any {
+	c := newCredential(rng, issuerDID, subjectDID, revNonce)
+	if subjectDID == "" { // a credential without credentialSubject.id
+		delete(c["credentialSubject"].(map[string]any), "id")
+	}
+	return c
+}
+
+func newCredential(rng *rand.Rand, issuerDID, subjectDID string, revNonce uint64) map[string]any {
 	return map[string]any{
 		"id":             fmt.Sprintf("urn:uuid:%08x-a00e-11ee-8f57-%012x", rng.Uint32(), rng.Int63n(1<<47)),
 		"@context":       []any{ctxload.URLCredentialsV1, ctxload.URLIden3Proofs, ctxload.URLKYCv3},
